@@ -6,10 +6,11 @@
 (* every block set the function can return.                                *)
 (*   MCSupergates1 : circuits with ONE output               - holds.       *)
 (*   MCSupergatesD : several outputs with disjoint cones    - holds.       *)
-(*   MCSupergatesS : several outputs whose cones share gates - the model   *)
-(*                   reproduces known finding F-C17-shared-cones           *)
-(*                   (expected counterexample: outputs r and t = buf(r)    *)
-(*                   over r = and(and(i1,i2), and(i3,i4))).                *)
+(*   MCSupergatesS : several outputs whose cones share gates - holds since *)
+(*                   the repair that recognises a block found under two    *)
+(*                   outputs as one block (the candidate repair was model- *)
+(*                   checked here first; before it TLC returned outputs r  *)
+(*                   and t = buf(r) over r = and(and(i1,i2), and(i3,i4))). *)
 (***************************************************************************)
 EXTENDS JudgeTx, CGFamilies, IOUtils
 
@@ -48,7 +49,7 @@ Loaded == {MarkOut(c, q) : c \in {d \in Shapes : d.n = 5}, q \in 1..5}
 Multi == {c \in Shapes \cup {d \in Loaded : \A q \in 1..d.n : d.out[q] => d.ty[q] # "input"} \cup Trees : NOut(c) >= 2}
 Init1 == go = FALSE /\ single = "one"  /\ c0 \in {c \in Shapes \cup Trees \cup Deeps : NOut(c) = 1}
 InitD == go = FALSE /\ single = "disjoint" /\ c0 \in {c \in Multi : ~Shared(c)}
-InitS == go = FALSE /\ single = "shared" /\ c0 \in {c \in Trees \cup Deeps : NOut(c) >= 2 /\ Shared(c)}
+InitS == go = FALSE /\ single = "shared" /\ c0 \in {c \in Multi \cup Trees \cup Deeps : NOut(c) >= 2 /\ Shared(c)}
 Next == go = FALSE /\ go' = TRUE /\ UNCHANGED <<c0, single>>
 EventFor(R) == LET ord == SgTopo(ToNamed(c0), R, {}, <<>>) IN
   [c |-> c0, L |-> [j \in 1..Len(ord) |-> Indexed(ord[j].sg)], form |-> "list", wide |-> FALSE, superc |-> <<>>,
